@@ -99,18 +99,24 @@ def correspond_sharded(ctx, fam, lines, shards, nontrivial):
     lines (the extracted SHA-256 takes about 4 ms per block)"""
     import os as _os
     argv = ["sh", "-c", "ulimit -s unlimited 2>/dev/null || ulimit -s 1000000; exec %s %s" % (_os.path.join(vlib.BUILD, "ocaml", "model"), fam)]
-    m = vlib._run_sharded(argv, lines, 1500, shards=max(1, min(shards, len(lines))))
+    m = vlib._run_sharded(argv, lines, 2400, shards=max(1, min(shards, len(lines))))
     i = vlib.run_impl(fam, lines)
     dis = []
+    skipped = 0
     for c, a, b in zip(lines, m, i):
         ctx.evaluations += 1
+        if a is None or a.startswith("crash rc=-9") or a.startswith("crash rc=None"):
+            skipped += 1          # the model process ran out of its time slice (machine load): no prediction
+            continue
         if c not in ctx.distinct:
             ctx.distinct.add(c)
             if nontrivial(c, a, b):
                 ctx.nontrivial += 1
         if vlib.canon_default(a) != vlib.canon_default(b):
             dis.append((c, a, b))
-    ctx.dist.setdefault("families", {})[fam + ":default"] = {"cases": len(lines), "skipped_by_model": 0, "disagreements": len(dis)}
+    ctx.dist.setdefault("families", {})[fam + ":default"] = {"cases": len(lines), "skipped_by_model": skipped, "disagreements": len(dis)}
+    if skipped:
+        ctx.notes.append("%d model cases unanswered (model process killed at its time limit)" % skipped)
     ctx.programs += len(lines)
     ctx.disagreements_checked += len(dis)
     if dis:
@@ -183,7 +189,7 @@ def run(ctx):
     n = ctx.scale(450, 12000)
     cases = []          # (line, tree_tt, flags, small)
     seen = set()
-    budget_model = ctx.scale(7000, 220000)   # SHA-256 blocks the extracted model may hash (about 4 ms per block)
+    budget_model = ctx.scale(7000, 120000)   # SHA-256 blocks the extracted model may hash (about 4 ms per block)
     for i in range(n):
         t, shape = gen_case(r, ctx.thorough)
         nodes, nbytes, blocks = size_of(t)
@@ -265,4 +271,4 @@ def run(ctx):
                           {"family": "shatree", "case": line[:200000], "impl": o})
     # model vs implementation on the trees the extracted SHA-256 can hash in time
     small_lines = [c[0] for c in cases if c[3]] + [b[0] for b in budget_lines if len(b[0]) < 3000][:ctx.scale(60, 2000)]
-    correspond_sharded(ctx, "shatree", small_lines, 8, nontrivial=lambda c, a, b: b is not None and b.startswith("ok"))
+    correspond_sharded(ctx, "shatree", small_lines, ctx.scale(8, 12), nontrivial=lambda c, a, b: b is not None and b.startswith("ok"))
